@@ -1,7 +1,6 @@
 package jschema
 
 import (
-	stdBytes "bytes"
 	"fmt"
 
 	"github.com/jsightapi/jsight-schema-go-library/bytes"
@@ -58,7 +57,7 @@ func (b *exampleBuilder) buildExampleForObjectNode(node *internalSchema.ObjectNo
 
 	buf.WriteRune('{')
 	children := node.Children()
-	length := len(children)
+	first := true
 	for i, childNode := range children {
 		ex, err := b.Build(childNode)
 		if err != nil {
@@ -74,21 +73,21 @@ func (b *exampleBuilder) buildExampleForObjectNode(node *internalSchema.ObjectNo
 			return nil, err
 		}
 
-		buf.WriteRune('"')
-		buf.Write(k)
-		buf.WriteString(`":`)
-		buf.Write(ex)
-		if i+1 != length {
+		if !first {
 			buf.WriteRune(',')
 		}
+		first = false
+		buf.Write(k)
+		buf.WriteRune(':')
+		buf.Write(ex)
 	}
 	buf.WriteRune('}')
-	return buf.Bytes(), nil
+	return copyBytes(buf.Bytes()), nil
 }
 
 func (b *exampleBuilder) buildObjectKey(k internalSchema.ObjectNodeKey) ([]byte, error) {
 	if !k.IsShortcut {
-		return []byte(k.Key), nil
+		return k.Lex.Value(), nil
 	}
 
 	typ, ok := b.types[k.Key]
@@ -96,11 +95,11 @@ func (b *exampleBuilder) buildObjectKey(k internalSchema.ObjectNodeKey) ([]byte,
 		return nil, errors.Format(errors.ErrUnknownType, k.Key)
 	}
 
-	ex, err := b.Build(typ.Schema().RootNode())
-	if err != nil {
-		return nil, err
-	}
-	return stdBytes.Trim(ex, `"`), nil
+	return b.Build(typ.Schema().RootNode())
+}
+
+func copyBytes(b []byte) []byte {
+	return append([]byte(nil), b...)
 }
 
 func (b *exampleBuilder) buildExampleForArrayNode(node *internalSchema.ArrayNode) ([]byte, error) {
@@ -112,9 +111,8 @@ func (b *exampleBuilder) buildExampleForArrayNode(node *internalSchema.ArrayNode
 	defer exampleBufferPool.Put(buf)
 
 	buf.WriteRune('[')
-	children := node.Children()
-	length := len(children)
-	for i, childNode := range children {
+	first := true
+	for _, childNode := range node.Children() {
 		ex, err := b.Build(childNode)
 		if err != nil {
 			return nil, err
@@ -124,13 +122,14 @@ func (b *exampleBuilder) buildExampleForArrayNode(node *internalSchema.ArrayNode
 			continue
 		}
 
-		buf.Write(ex)
-		if i+1 != length {
+		if !first {
 			buf.WriteRune(',')
 		}
+		first = false
+		buf.Write(ex)
 	}
 	buf.WriteRune(']')
-	return buf.Bytes(), nil
+	return copyBytes(buf.Bytes()), nil
 }
 
 func (b *exampleBuilder) buildExampleForMixedValueNode(node *internalSchema.MixedValueNode) ([]byte, error) {
